@@ -30,6 +30,24 @@ Theorem C15_skip_has_cause : forall tcs rs gs i k, exec tcs rs gs i = ExSkipped 
                  /\ (status r = Code (t_skip tc) \/ status r = ESkipped).
 Proof. exact exec_skipped_inv. Qed.
 
+(* Cram documents run as ONE script.  The document is reported skipped exactly when a divider that was printed carries the
+   skip code (or the script itself ended in it) -- also when a later test case ends the script early with another code, so
+   that dividers are missing: the skip is found first and is never turned into an execution error *)
+Theorem C15_script_skip_detected : forall skip rs early j r, script_first_stop (produced rs early) = None ->
+  nth_error (produced rs early) j = Some r -> status r = Code skip ->
+  exists k, k <= j /\ exec_script2 skip rs early = ExSkipped k.
+Proof. exact script_skip_detected. Qed.
+Theorem C15_script_skip_has_cause : forall skip rs early k, exec_script2 skip rs early = ExSkipped k ->
+  (exists r, nth_error (produced rs early) k = Some r /\ status r = Code skip)
+  \/ (k = 0 /\ exists r, script_first_stop (produced rs early) = Some r /\ status r = ESkipped).
+Proof. exact script_skip_has_cause. Qed.
+Example C15_script_instance :
+  let r c := {| status := Code c; out_ok := true |} in
+  exec_script2 80%Z [r 0%Z; r 80%Z; r 3%Z; r 0%Z] (Some 2) = ExSkipped 1      (* (exit 80) in the second test case, `exit 3` in the third *)
+  /\ exec_script2 80%Z [r 0%Z; r 1%Z; r 3%Z; r 0%Z] (Some 2) = ExFailed 0    (* no skip: the missing dividers are an execution error *)
+  /\ exec_script2 80%Z [r 0%Z; r 1%Z; r 3%Z; r 80%Z] (Some 2) = ExFailed 0.  (* a skip that was never reached does not count *)
+Proof. repeat split; vm_compute; reflexivity. Qed.
+
 Theorem C15_default_code : default_skip_document_code = 80%Z /\ tc_empty_get_skip_code = 80%Z.
 Proof. split; vm_compute; reflexivity. Qed.
 
@@ -49,3 +67,5 @@ Print Assumptions C15_skip_all.
 Print Assumptions C15_only_then.
 Print Assumptions C15_skip_has_cause.
 Print Assumptions C15_default_code.
+Print Assumptions C15_script_skip_detected.
+Print Assumptions C15_script_skip_has_cause.
